@@ -687,6 +687,10 @@ func (x *Exprer) cell(a *ssa.Alloc) *Expr {
 			ce = x.callExpr(ci.Common(), nil)
 			x.selfAlloc = nil
 		}
+		if ce != nil && tname == "math/big.Int" && strings.HasPrefix(ce.Name, "math/big.(*Int).") {
+			// z := new(big.Int); z.SetBytes(b)  and  z := new(big.Int).SetBytes(b)  are the same number object
+			return ce
+		}
 		return mk("cell", tname, a, ce)
 	}
 	return mk("zero", "zero("+tname+")", a)
